@@ -4,6 +4,7 @@
     argument list a script can produce (bulk strings of valid UTF-8). *)
 From Ferrous Require Import Base.Bytes Generated Model.Resp Model.Types Model.Glob Model.Utf8 Model.Strings
   Model.Lists Model.ZSets Model.Streams Model.Scan Model.Exec Model.Lua Model.Server Proofs.BytesFacts.
+From Ferrous Require Proofs.StringsFacts.
 Open Scope Z_scope.
 
 Definition bulks (l : list bytes) : list frame := map FBulk l.
@@ -99,7 +100,14 @@ Lemma x_int_u64 b : x_int parse_u64 (FBulk b) = parse_u64 b.
 Proof. apply x_int_of. intros v. apply parse_unsigned_ascii. Qed.
 Lemma x_int_usize b : x_int parse_usize (FBulk b) = parse_usize b.
 Proof. apply x_int_of. intros v. apply parse_unsigned_ascii. Qed.
-Ltac xints := rewrite ?x_int_isize, ?x_int_usize, ?x_int_i64, ?x_int_u64; unfold parse_isize, parse_usize, parse_u64.
+Lemma x_int_canonical b : x_int parse_canonical (FBulk b) = parse_canonical b.
+Proof. apply x_int_of. intros v H. apply StringsFacts.parse_canonical_sub in H. exact (parse_signed_ascii _ _ _ _ H). Qed.
+Lemma x_int_pos_u64 b : x_int parse_pos_u64 (FBulk b) = parse_pos_u64 b.
+Proof.
+  apply x_int_of. intros v. unfold parse_pos_u64. destruct (parse_u64 b) as [n|] eqn:E; [|discriminate].
+  intros _. exact (parse_unsigned_ascii _ _ _ E).
+Qed.
+Ltac xints := rewrite ?x_int_isize, ?x_int_usize, ?x_int_i64, ?x_int_u64, ?x_int_canonical, ?x_int_pos_u64; unfold parse_isize, parse_usize, parse_u64.
 (** a word that upper-cases to ASCII text is ASCII *)
 Lemma upper_ascii l : ascii (upper l) = true -> ascii l = true.
 Proof.
@@ -329,20 +337,20 @@ Qed.
 
 Lemma parity_incrby args :
   match args with k :: _ => beq k [] = false | _ => True end ->
-  via (parse_k_int parse_i64 XIncrBy (F :: bulks args)) = h_incrby d (F :: bulks args).
+  via (parse_k_int parse_canonical XIncrBy (F :: bulks args)) = h_incrby d (F :: bulks args).
 Proof.
   destruct args as [|k [|a [|x r]]]; intros Hk; unfold h_incrby, nparts, parse_k_int, ExecFacts.via, nth_arg;
     rewrite ?bulks_cons, ?bulks_nil; cbn [nth_error x_bytes arg_bytes]; lens; try reflexivity.
-  - rewrite Hk; xints. destruct (parse_i64 a); reflexivity.
+  - rewrite Hk; xints. destruct (parse_canonical a); reflexivity.
   - len_bool. destruct (1 + (1 + (1 + (1 + len r))) =? 3) eqn:E; [lia|]. reflexivity.
 Qed.
 
 Lemma parity_decrby args :
-  via (parse_k_int parse_i64 XDecrBy (F :: bulks args)) = h_decrby d (F :: bulks args).
+  via (parse_k_int parse_canonical XDecrBy (F :: bulks args)) = h_decrby d (F :: bulks args).
 Proof.
   destruct args as [|k [|a [|x r]]]; unfold h_decrby, nparts, parse_k_int, ExecFacts.via, nth_arg;
     rewrite ?bulks_cons, ?bulks_nil; cbn [nth_error x_bytes arg_bytes]; lens; try reflexivity.
-  - xints. destruct (parse_i64 a) as [n|]; reflexivity.
+  - xints. destruct (parse_canonical a) as [n|]; reflexivity.
   - len_bool. destruct (1 + (1 + (1 + (1 + len r))) =? 3) eqn:E; [lia|]. reflexivity.
 Qed.
 
@@ -370,11 +378,12 @@ Qed.
 Lemma parity_setex (mult : Z) (c : bytes -> bytes -> Z -> xcmd) args :
   (forall k v n, execute now d (c k v n) None =
      match eng_set now d k v (Some (n * mult)) with Some d' => (r_ok, d') | None => (r_err, d) end) ->
-  via (parse_k_int_v parse_u64 (fun k n v => c k v n) (F :: bulks args)) = h_setex mult now d (F :: bulks args).
+  via (parse_k_int_v parse_pos_u64 (fun k n v => c k v n) (F :: bulks args)) = h_setex mult now d (F :: bulks args).
 Proof.
   intros Hc. destruct args as [|k [|a [|b [|x r]]]]; unfold h_setex, nparts, parse_k_int_v, ExecFacts.via, nth_arg;
     rewrite ?bulks_cons, ?bulks_nil; cbn [nth_error x_bytes arg_bytes]; lens; try reflexivity.
-  - xints. destruct (parse_unsigned u64_max a) as [n|]; [|reflexivity].
+  - xints. unfold parse_pos_u64, parse_u64. destruct (parse_unsigned u64_max a) as [n|]; [|reflexivity].
+    destruct (n =? 0); [reflexivity|].
     rewrite Hc. unfold eng_set. destruct (ttl_ok (n * mult)); reflexivity.
   - len_bool. destruct (1 + (1 + (1 + (1 + (1 + len r)))) =? 4) eqn:E; [lia|]. reflexivity.
 Qed.
@@ -533,12 +542,12 @@ Qed.
 
 (** SET: the two option parsers in lockstep *)
 Definition plain (o : set_options) : bool := negb (o_get o) && negb (o_keepttl o).
-Lemma set_options_get_mono opts : forall o o', parse_set_options opts o = Some o' ->
+Lemma set_options_get_mono opts : forall o ex px o', parse_set_options opts o ex px = Some o' ->
   (o_get o = true -> o_get o' = true) /\ (o_keepttl o = true -> o_keepttl o' = true).
 Proof.
-  assert (G : forall n opts, (length opts <= n)%nat -> forall o o', parse_set_options opts o = Some o' ->
+  assert (G : forall n opts, (length opts <= n)%nat -> forall o ex px o', parse_set_options opts o ex px = Some o' ->
               (o_get o = true -> o_get o' = true) /\ (o_keepttl o = true -> o_keepttl o' = true)).
-  { induction n as [|n IH]; intros [|f rest] Hl o o'; cbn [length] in Hl; try lia; cbn [parse_set_options]; intros E.
+  { induction n as [|n IH]; intros [|f rest] Hl o ex px o'; cbn [length] in Hl; try lia; cbn [parse_set_options]; intros E.
     - inversion E; subst; tauto.
     - inversion E; subst; tauto.
     - destruct (x_str f) as [s0|]; [|discriminate].
@@ -552,20 +561,20 @@ Proof.
       + destruct rest as [|a rest']; [discriminate|]. destruct (x_int parse_u64 a) as [zz|]; [|discriminate].
         destruct (zz =? 0); [discriminate|].
         apply IH in E; [cbn [o_get o_keepttl] in E; tauto|cbn [length] in *; lia]. }
-  intros o o'. apply (G (length opts)). lia.
+  intros o ex px o'. apply (G (length opts)). lia.
 Qed.
 
 Definition refusal (r : setopt) : Prop := match r with SetOpts _ _ _ => False | _ => True end.
 
-Lemma set_opts_rel : forall n opts, (length opts <= n)%nat -> forall fuel o,
+Lemma set_opts_rel : forall n opts, (length opts <= n)%nat -> forall fuel o ex px,
   plain o = true -> (length opts <= fuel)%nat ->
-  match parse_set_options (bulks opts) o with
+  match parse_set_options (bulks opts) o ex px with
   | Some o' => plain o' = true ->
-               parse_set_opts fuel (bulks opts) (o_exp o) (o_nx o) (o_xx o) = SetOpts (o_exp o') (o_nx o') (o_xx o')
-  | None => refusal (parse_set_opts fuel (bulks opts) (o_exp o) (o_nx o) (o_xx o))
+               parse_set_opts fuel (bulks opts) (o_exp o) ex px (o_nx o) (o_xx o) = SetOpts (o_exp o') (o_nx o') (o_xx o')
+  | None => refusal (parse_set_opts fuel (bulks opts) (o_exp o) ex px (o_nx o) (o_xx o))
   end.
 Proof.
-  induction n as [|n IH]; intros [|a rest] Hl fuel o Hp Hf; cbn [length] in Hl; try lia.
+  induction n as [|n IH]; intros [|a rest] Hl fuel o ex px Hp Hf; cbn [length] in Hl; try lia.
   - rewrite bulks_nil. cbn [parse_set_options]. intros _. destruct fuel; reflexivity.
   - rewrite bulks_nil. cbn [parse_set_options]. intros _. destruct fuel; reflexivity.
   - destruct fuel as [|fuel]; [cbn [length] in Hf; lia|].
@@ -578,11 +587,11 @@ Proof.
     rewrite (x_str_valid _ Ha).
     destruct (beq (upper a) (bs "NX")) eqn:E1.
     { apply beq_eq in E1. rewrite E1. kill_beq. cbv iota.
-      apply (IH rest ltac:(lia) fuel {| o_nx := true; o_xx := o_xx o; o_get := o_get o; o_exp := o_exp o; o_keepttl := o_keepttl o |});
+      apply (IH rest ltac:(lia) fuel {| o_nx := true; o_xx := o_xx o; o_get := o_get o; o_exp := o_exp o; o_keepttl := o_keepttl o |} ex px);
         [exact Hp|lia]. }
     destruct (beq (upper a) (bs "XX")) eqn:E2.
     { apply beq_eq in E2. rewrite E2. kill_beq. cbv iota.
-      apply (IH rest ltac:(lia) fuel {| o_nx := o_nx o; o_xx := true; o_get := o_get o; o_exp := o_exp o; o_keepttl := o_keepttl o |});
+      apply (IH rest ltac:(lia) fuel {| o_nx := o_nx o; o_xx := true; o_get := o_get o; o_exp := o_exp o; o_keepttl := o_keepttl o |} ex px);
         [exact Hp|lia]. }
     destruct (beq (upper a) (bs "GET")) eqn:E3.
     { apply beq_eq in E3. rewrite E3. kill_beq. cbv iota.
@@ -590,18 +599,18 @@ Proof.
       apply set_options_get_mono in Eo. cbn [o_get] in Eo. destruct Eo as [Eg _].
       intros Hp'. unfold plain in Hp'. rewrite (Eg eq_refl) in Hp'. discriminate. }
     destruct (beq (upper a) (bs "EX")) eqn:E4.
-    { destruct rest as [|b rest']; [exact I|].
+    { destruct px; [exact I|]. destruct rest as [|b rest']; [exact I|].
       rewrite bulks_cons. rewrite x_int_u64. destruct (parse_u64 b) as [m|]; [|exact I].
       destruct (m =? 0); [exact I|].
       cbn [length] in *.
-      apply (IH rest' ltac:(lia) fuel {| o_nx := o_nx o; o_xx := o_xx o; o_get := o_get o; o_exp := Some (m * 1000); o_keepttl := o_keepttl o |});
+      apply (IH rest' ltac:(lia) fuel {| o_nx := o_nx o; o_xx := o_xx o; o_get := o_get o; o_exp := Some (m * 1000); o_keepttl := o_keepttl o |} true false);
         [exact Hp|lia]. }
     destruct (beq (upper a) (bs "PX")) eqn:E5.
-    { destruct rest as [|b rest']; [exact I|].
+    { destruct ex; [exact I|]. destruct rest as [|b rest']; [exact I|].
       rewrite bulks_cons. rewrite x_int_u64. destruct (parse_u64 b) as [m|]; [|exact I].
       destruct (m =? 0); [exact I|].
       cbn [length] in *.
-      apply (IH rest' ltac:(lia) fuel {| o_nx := o_nx o; o_xx := o_xx o; o_get := o_get o; o_exp := Some m; o_keepttl := o_keepttl o |});
+      apply (IH rest' ltac:(lia) fuel {| o_nx := o_nx o; o_xx := o_xx o; o_get := o_get o; o_exp := Some m; o_keepttl := o_keepttl o |} false true);
         [exact Hp|lia]. }
     destruct (beq (upper a) (bs "KEEPTTL")) eqn:E6; [|exact I].
     destruct (parse_set_options (bulks rest) _) as [o'|] eqn:Eo; [|exact I].
@@ -610,7 +619,7 @@ Proof.
 Qed.
 
 Definition set_known (opts : list bytes) : bool :=
-  match parse_set_options (bulks opts) default_options with
+  match parse_set_options (bulks opts) default_options false false with
   | Some o => o_get o || o_keepttl o
   | None => false
   end.
@@ -624,11 +633,11 @@ Proof.
     rewrite ?bulks_cons, ?bulks_nil; cbn [nth_error x_bytes arg_bytes skipn]; lens; try reflexivity.
   len_bool. destruct (1 + (1 + (1 + len opts)) <? 3) eqn:E; [lia|]. rewrite Hk.
   cbn [skipn] in Hs. unfold set_known in Hs.
-  pose proof (set_opts_rel (length opts) opts (le_n _) (length (F :: FBulk k :: FBulk v :: bulks opts)) default_options
+  pose proof (set_opts_rel (length opts) opts (le_n _) (length (F :: FBulk k :: FBulk v :: bulks opts)) default_options false false
                 eq_refl ltac:(cbn [length]; unfold bulks; rewrite map_length; lia)) as R.
   cbn [o_exp o_nx o_xx default_options] in R.
-  destruct (parse_set_options (bulks opts) default_options) as [o|].
-  2:{ destruct (parse_set_opts _ _ None false false); [elim R|reflexivity|reflexivity]. }
+  destruct (parse_set_options (bulks opts) default_options false false) as [o|].
+  2:{ destruct (parse_set_opts _ _ None false false false false); [elim R|reflexivity|reflexivity]. }
   apply orb_false_elim in Hs. destruct Hs as [Hg Hkp].
   rewrite R by (unfold plain; now rewrite Hg, Hkp).
   cbn [execute]. rewrite Hkp, Hg. cbn [andb orb]. rewrite orb_false_r. unfold eng_set_nx, eng_set.
